@@ -1,20 +1,97 @@
 open Model
 open Zio
-(* rows are encoded as 4 ints each: t e id ch *)
-let rec rows_of = function
-  | [] -> []
-  | t :: e :: i :: c :: r -> { rt = z_of_int t; re = z_of_int e; rid = z_of_int i; rch = z_of_int c } :: rows_of r
-  | _ -> failwith "rows"
-let ids rs = List.map (fun r -> int_of_z r.rid) rs
+(* rows are encoded as: n then 4 ints each (t e id ch)
+   chunks: start end dtype kind run(-999999 = None) target <rows> *)
+let none_run = -999999
+let parse_rows l =
+  match l with
+  | n :: r ->
+      let rec go k l acc = if k = 0 then (List.rev acc, l) else
+        match l with
+        | t :: e :: i :: c :: rest -> go (k - 1) rest ({ rt = z_of_int t; re = z_of_int e; rid = z_of_int i; rch = z_of_int c } :: acc)
+        | _ -> failwith "rows" in
+      go n r []
+  | _ -> failwith "rows0"
+let parse_chunk l =
+  match l with
+  | s :: e :: dt :: kind :: run :: tgt :: r ->
+      let rows, rest = parse_rows r in
+      ({ cstart = z_of_int s; cend = z_of_int e; crows = rows; cdtype = z_of_int dt; ckind = z_of_int kind;
+         crun = (if run = none_run then None else Some (z_of_int run)); ctarget = z_of_int tgt }, rest)
+  | _ -> failwith "chunk"
+let rec parse_chunks k l = if k = 0 then ([], l) else
+  let c, r = parse_chunk l in let cs, r' = parse_chunks (k - 1) r in (c :: cs, r')
+let show_chunk c =
+  Printf.sprintf "[%d %d run=%d n=%d ids=%s]" (int_of_z c.cstart) (int_of_z c.cend)
+    (match c.crun with None -> none_run | Some r -> int_of_z r) (List.length c.crows)
+    (String.concat "," (List.map (fun r -> string_of_int (int_of_z r.rid)) c.crows))
 let handle toks =
   match toks with
   | "split_array" :: rest ->
       (match ints rest with
-       | t :: early :: n :: r ->
-           let rs = rows_of (take (4 * n) r) in
+       | t :: early :: r ->
+           let rs, _ = parse_rows r in
            (match split_array rs (z_of_int t) (early <> 0) with
             | None -> "CannotSplit"
             | Some ((l, rr), t') -> Printf.sprintf "ok %d %d %d" (List.length l) (List.length rr) (int_of_z t'))
+       | _ -> "BAD")
+  | "mk_chunk" :: rest ->
+      let c, _ = parse_chunk (ints rest) in
+      (match mk_chunk c.cstart c.cend c.crows c.cdtype c.ckind c.crun c.ctarget with
+       | Ok c -> "ok " ^ show_chunk c | Err e -> Printf.sprintf "err %d" (int_of_z e))
+  | "chunk_split" :: rest ->
+      (match ints rest with
+       | t :: early :: r ->
+           let c, _ = parse_chunk r in
+           (match chunk_split c (z_of_int t) (early <> 0) with
+            | Ok (c1, c2) -> "ok " ^ show_chunk c1 ^ " " ^ show_chunk c2
+            | Err e -> Printf.sprintf "err %d" (int_of_z e))
+       | _ -> "BAD")
+  | "concat" :: rest ->
+      (match ints rest with
+       | allow :: k :: r ->
+           let cs, _ = parse_chunks k r in
+           (match concatenate (List.map (fun c -> Some c) cs) (allow <> 0) with
+            | Ok c -> "ok " ^ show_chunk c | Err e -> Printf.sprintf "err %d" (int_of_z e))
+       | _ -> "BAD")
+  | "continuity" :: rest ->
+      (match ints rest with
+       | k :: r -> let cs, _ = parse_chunks k r in
+           (match continuity_check cs with None -> "ok" | Some i -> Printf.sprintf "bad %d" (int_of_nat i))
+       | _ -> "BAD")
+  | "get_splits" :: rest ->
+      (match ints rest with
+       | assumed :: min_gap :: r ->
+           let rs, _ = parse_rows r in
+           (match get_splits rs (z_of_int assumed) (z_of_int min_gap) with
+            | Ok l -> "ok " ^ join (List.map int_of_nat l) | Err e -> Printf.sprintf "err %d" (int_of_z e))
+       | _ -> "BAD")
+  | "rechunk" :: rest ->
+      (match ints rest with
+       | k :: r -> let cs, _ = parse_chunks k r in
+           (match rechunk_stream cs with
+            | Ok out -> "ok " ^ String.concat " " (List.map show_chunk out)
+            | Err e -> Printf.sprintf "err %d" (int_of_z e))
+       | _ -> "BAD")
+  | "merge" :: rest ->
+      (match ints rest with
+       | newdt :: k :: r ->
+           let rec cols n l acc = if n = 0 then (List.rev acc, l) else
+             (match l with
+              | fid :: m :: rest -> cols (n - 1) (drop m rest) ((z_of_int fid, List.map z_of_int (take m rest)) :: acc)
+              | _ -> failwith "cols") in
+           let rec chunks n l acc = if n = 0 then List.rev acc else
+             (match l with
+              | s :: e :: len :: kind :: run :: dt :: nf :: rest ->
+                  let cs, rest' = cols nf rest [] in
+                  chunks (n - 1) rest' ({ kstart = z_of_int s; kend = z_of_int e; klen = z_of_int len; kkind = z_of_int kind;
+                                          krun = z_of_int run; kdtype = z_of_int dt; kdata = cs } :: acc)
+              | _ -> failwith "kchunk") in
+           (match merge (chunks k r []) (z_of_int newdt) with
+            | Ok c -> Printf.sprintf "ok %d %d %s" (int_of_z c.kstart) (int_of_z c.kend)
+                        (String.concat ";" (List.map (fun (f, col) -> string_of_int (int_of_z f) ^ ":" ^
+                           String.concat "," (List.map (fun v -> string_of_int (int_of_z v)) col)) c.kdata))
+            | Err e -> Printf.sprintf "err %d" (int_of_z e))
        | _ -> "BAD")
   | _ -> "UNKNOWN"
 let () = main_loop handle
